@@ -117,6 +117,27 @@ Definition root_nodes (op : topop) : list N :=
   flat_map (fun m => match m with MExec _ p _ | MInst _ p _ _ _ _ | MMigrate _ _ p =>
                        match p with Prog n _ _ => [n] end | _ => [] end) (top_msgs op).
 
+(* what a body leaves for key k: the last write / remove of k among its actions *)
+Fixpoint last_write (k : bytes) (acts : list action) (cur : option (option bytes)) : option (option bytes) :=
+  match acts with
+  | [] => cur
+  | AWrite k' v :: r => last_write k r (if beqb k k' then Some (Some v) else cur)
+  | ARemove k' :: r => last_write k r (if beqb k k' then Some None else cur)
+  | _ :: r => last_write k r cur
+  end.
+Definition written_keys (acts : list action) : list bytes :=
+  flat_map (fun a => match a with AWrite k _ | ARemove k => [k] | _ => [] end) acts.
+(* a program without sub-messages that succeeded as the only message of a call: every key it touched holds,
+   in the committed state, exactly what its last action on that key left *)
+Definition leaf_effects_persisted (s : chain) (c : text) (p : prog) : bool :=
+  match p with
+  | Prog _ acts (OResp _ _ _ SNil) =>
+      forallb (fun k => match last_write k acts None with
+                        | Some v => obytes_eqb (assoc bcmp k (cstore_get s c)) v
+                        | None => true end) (written_keys acts)
+  | _ => true
+  end.
+
 Definition p_c01 (st : step) : option N :=
   let ok := match st_outcome st with Ok _ => true | _ => false end in
   first_fail [
@@ -134,7 +155,12 @@ Definition p_c01 (st : step) : option N :=
     (8, negb ok ||
         forallb (fun n => match find_call n (st_trace st) with
                           | Some en => has_marker (st_state st) (callee_of en) n
-                          | None => true end) (root_nodes (st_op st)))
+                          | None => true end) (root_nodes (st_op st)));
+    (* 9: Ok => EVERY effect persisted: the writes and removes of a single leaf program are all in the committed state *)
+    (9, match st_outcome st, st_op st with
+        | Ok _, TExec _ (MExec c p _) => leaf_effects_persisted (st_state st) c p
+        | Ok _, TWasmSudo c p => leaf_effects_persisted (st_state st) c p
+        | _, _ => true end)
   ].
 
 (* ---------- C02: failed sub-messages leave no trace ---------- *)
